@@ -14,6 +14,9 @@ func runBidiCase[K comparable](c *core.Ctx, kind string, d *Dom[K]) {
 	m.Bidi = true
 	c.SetGaps((c.Index/8)%2 == 1)
 	nv := c.R.Range(4, 6)
+	if len(d.Alpha) > 50 {
+		nv = len(d.Alpha) // wide cases: both trees get deep, deletions hit inner nodes
+	}
 	var vals []int
 	for i := 0; i < nv; i++ {
 		vals = append(vals, i*6)
@@ -21,6 +24,11 @@ func runBidiCase[K comparable](c *core.Ctx, kind string, d *Dom[K]) {
 	m.VD = append(append([]int(nil), vals...), 3, -6)
 	r := c.R
 	steps := r.Range(30, 250)
+	if nv > 50 {
+		steps = 1500
+		m.VD = append([]int(nil), vals[:12]...)
+		m.VD = append(m.VD, 3, -6)
+	}
 	for s := 0; s < steps; s++ {
 		switch r.Pick(55, 25, 10, 8, 2) {
 		case 0:
@@ -52,8 +60,15 @@ func runBidiCase[K comparable](c *core.Ctx, kind string, d *Dom[K]) {
 		case 3:
 			m.Get(d.AnyVal(r))
 		default:
-			m.Clear()
+			if nv > 50 {
+				m.Get(d.AnyVal(r)) // a Clear every ~50 calls would keep a wide map small
+			} else {
+				m.Clear()
+			}
 		}
+	}
+	if nv > 50 {
+		c.Count("bidi:wide-cases", 1)
 	}
 	m.Final()
 	c.Nontrivial()
@@ -61,6 +76,10 @@ func runBidiCase[K comparable](c *core.Ctx, kind string, d *Dom[K]) {
 
 func runC10(c *core.Ctx) {
 	kind := []string{"HashBidiMap", "TreeBidiMap"}[c.Index%2]
+	if (c.Index/2)%101 == 17 {
+		runBidiCase(c, kind, IntDom(c.R.Range(100, 300)))
+		return
+	}
 	if (c.Index/2)%4 == 3 {
 		runBidiCase(c, kind, StrDom(c.R.Range(4, 6)))
 		return
